@@ -94,7 +94,9 @@ func (a *kAggregate) Next(ctx context.Context) ([]model.StepVector, error) {
 	for i := range a.params {
 		a.params[i] = math.NaN()
 		if i < len(args) {
-			a.params[i] = args[i].Samples[0]
+			if len(args[i].Samples) > 0 {
+				a.params[i] = args[i].Samples[0]
+			}
 			a.paramOp.GetPool().PutStepVector(args[i])
 		}
 	}
@@ -111,7 +113,21 @@ func (a *kAggregate) Next(ctx context.Context) ([]model.StepVector, error) {
 
 	result := a.vectorPool.GetVectorBatch()
 	for i, vector := range in {
-		a.aggregate(vector.T, &result, int(a.params[i]), vector.SampleIDs, vector.Samples)
+		// Same parameter handling as the Prometheus engine: the value must be
+		// convertible to an int64, and k < 1 selects nothing.
+		if !convertibleToInt64(a.params[i]) {
+			return nil, errors.Newf("Scalar value %v overflows int64", a.params[i])
+		}
+		k := int64(a.params[i])
+		if k < 1 {
+			result = append(result, a.vectorPool.GetStepVector(vector.T))
+			a.next.GetPool().PutStepVector(vector)
+			continue
+		}
+		if k > int64(len(vector.SampleIDs)) {
+			k = int64(len(vector.SampleIDs))
+		}
+		a.aggregate(vector.T, &result, int(k), vector.SampleIDs, vector.Samples)
 		a.next.GetPool().PutStepVector(vector)
 	}
 
@@ -193,6 +209,11 @@ func (a *kAggregate) aggregate(t int64, result *[]model.StepVector, k int, Sampl
 		*result = append(*result, s)
 		h.entries = h.entries[:0]
 	}
+}
+
+// convertibleToInt64 returns true if v does not over-/underflow an int64.
+func convertibleToInt64(v float64) bool {
+	return v <= math.MaxInt64 && v >= math.MinInt64
 }
 
 type entry struct {
